@@ -337,7 +337,8 @@ def convert_array_stage(ctx, st):
     schemas = []
     for items in (None, S, [S], [S, I], [S, I, B]):
         for addl in (None, B):
-            for mn, mx in ((None, None), (2, 2), (0, 0), (1, 2), (None, 2), (2, None), (3, 3), (1, 1)):
+            for mn, mx in ((None, None), (2, 2), (0, 0), (1, 2), (None, 2), (2, None), (3, 3), (1, 1),
+                           (12, 12), (13, 13), (32, 32), (33, 33), (40, 40)):     # lengths on both sides of what std / serde implement traits for
                 for uq in (None, True, False):
                     for ct in (None, S):
                         sc = {"type": "array"}
